@@ -256,11 +256,11 @@ void harness(void) {
 	__CPROVER_assert(IMPLIES(res == KSI_OK && !conf_before, g_c.pending == c0.pending + (hasReq ? 1 : 0) + (hasCnf ? 1 : 0) && g_c.received == c0.received),
 			"addRequest: accepted -> pending grows by one per accepted handle");
 	__CPROVER_assert(IMPLIES(res == KSI_OK && !(hasCnf && conf_before), ainv_inv(&g_c)), "addRequest: accepted -> Inv(c) holds (no configuration handle replaced)");
-	__CPROVER_assert(IMPLIES(res == KSI_OK, ainv_inv(&g_c)), "addRequest: accepted -> Inv(c) holds (the counters equal the number of cached, not yet returned handles)");
+	__CPROVER_assert(IMPLIES(res == KSI_OK && hasCnf && conf_before, ainv_inv(&g_c)), "addRequest: accepted -> Inv(c) holds (case: a configuration request was already cached and is replaced by the new one)");
 	/* the request was already entered into the cache and handed to the transport when a later step failed */
 	cached_then_failed = res != KSI_OK && hasReq && hasCnf && g_ar_transport_adds == 1 && k != 0;
 	__CPROVER_assert(IMPLIES(res != KSI_OK && !cached_then_failed, k == 0 && cache_same() && counters_same() && ainv_inv(&g_c)), "addRequest: refused before the request was cached -> cache and counters unchanged");
-	__CPROVER_assert(IMPLIES(res != KSI_OK, k == 0 && cache_same() && counters_same()), "addRequest: refused -> the cache does not keep the caller's handle, counters unchanged");
+	__CPROVER_assert(IMPLIES(cached_then_failed, k == 0 && cache_same() && counters_same()), "addRequest: refused -> the cache does not keep the caller's handle, counters unchanged (case: hash + configuration request failing after it was cached)");
 	__CPROVER_assert(IMPLIES(res == KSI_ASYNC_REQUEST_CACHE_FULL, hasReq && g_ar_transport_adds == 0), "addRequest: 'cache full' only for requests that need a slot, nothing sent");
 	__CPROVER_assert(IMPLIES(hasReq && occ0 + 1 == ainv_N(&g_c) && g_ar_getid_res == KSI_OK && g_ar_setid_res == KSI_OK, res == KSI_ASYNC_REQUEST_CACHE_FULL), "addRequest: every slot occupied -> refused with 'cache full'");
 	__CPROVER_assert(IMPLIES(res == KSI_ASYNC_REQUEST_CACHE_FULL && !conf_before, occ0 + 1 == ainv_N(&g_c)), "addRequest: 'cache full' only when every slot is occupied (no configuration handle cached)");
